@@ -344,6 +344,14 @@ def edited_events(ns, seeds, n_edits, theorems=(), kinds=None, simulate=False, *
             ev["seed"], ev["edit"] = seed, edit
             events.append(ev)
             if ev["raised"] != "none":
-                break               # a failed recomputation leaves a partial state (C15's business)
+                # a refused edit is rolled back: the live system must still be the model as it was, and the history goes on
+                try:
+                    back, _ = model_event(ns, tid, 1000 + k, model, I, live=lambda: live, theorems=theorems)
+                except lattice.OffLattice:
+                    break
+                back["seed"], back["edit"] = seed, ["after-refused"] + list(edit)
+                events.append(back)
+                SKIPPED["refused"] = SKIPPED.get("refused", 0) + 1
+                continue
             model, I = model2, I2
     return events
